@@ -9,6 +9,8 @@ import (
 	"strings"
 	"sync"
 	"time"
+
+	"go.nanomsg.org/mangos/v3"
 )
 
 // ChopRelay puts a byte-level relay in front of a listening stream endpoint (tcp, tls+tcp, ws, wss,
@@ -134,4 +136,40 @@ func ChopRelay(url string, seed int64) (string, func(), error) {
 		}
 	}
 	return out, stop, nil
+}
+
+// ConnectChopped is Connect with the dialer going through a ChopRelay (stream transports only; inproc
+// connects directly).  The returned function tears the relay down.
+func ConnectChopped(srv, cli mangos.Socket, tr string, seed int64) (func(), error) {
+	if tr == "inproc" {
+		_, _, err := Connect(srv, cli, tr)
+		return func() {}, err
+	}
+	var lo, do map[string]interface{}
+	if NeedsTLS(tr) {
+		s, c := TlsConfigs()
+		lo = map[string]interface{}{mangos.OptionTLSConfig: s}
+		do = map[string]interface{}{mangos.OptionTLSConfig: c}
+	}
+	l, err := srv.NewListener(ListenAddr(tr), lo)
+	if err != nil {
+		return nil, fmt.Errorf("NewListener: %w", err)
+	}
+	if err := l.Listen(); err != nil {
+		return nil, fmt.Errorf("Listen: %w", err)
+	}
+	u, stop, err := ChopRelay(l.Address(), seed)
+	if err != nil {
+		return nil, err
+	}
+	d, err := cli.NewDialer(u, do)
+	if err != nil {
+		stop()
+		return nil, fmt.Errorf("NewDialer(%s): %w", u, err)
+	}
+	if err := d.Dial(); err != nil {
+		stop()
+		return nil, fmt.Errorf("Dial(%s): %w", u, err)
+	}
+	return stop, nil
 }
